@@ -33,15 +33,273 @@ def creator_batches(ctx):
                {"RandomInputHandler": {"number_of_root_nodes": min(n, 40)}})], 0, (ctx.seed, ctx.seed + 1))]
 
 
-def run(ctx, replay_jobs=None):
+# ------------------------------------------------------------------------------------------------------------------
+# handler level: the end-of-chain event handlers against Model/EndOfChain.v (bit for bit) and a direct oracle
+def _f2b(x):
+    import struct
+    return struct.unpack("<Q", struct.pack("<d", float(x)))[0]
+
+
+def _b2f(b):
+    import struct
+    return struct.unpack("<d", struct.pack("<Q", int(b)))[0]
+
+
+def _norm_time(q, r):
+    import math
+    f = math.floor(r)
+    return [_f2b(q + f), _f2b(r - f)]
+
+
+def eoc_cases(ctx, n):
+    import math
+    rng = ctx.rng
+    cases = []
+    for _ in range(n):
+        seq = rng.random() < 0.35
+        dim = 2 if seq else rng.choice([1, 2, 3, 3])
+        L = rng.choice([1.0, 2.5, 7.3, 0.8, 17.0])
+        chain = rng.choice([0.78965, 0.5, 1.0, 3.7, rng.uniform(0.05, 6.0), 1.0 / 3.0])
+        q = float(rng.choice([0, 1, 7, 123, 10 ** 6, 2 ** 40, rng.randrange(0, 5000)]))
+        r = rng.choice([0.0, 0.5, rng.random(), rng.random(), 1.0 - 2.0 ** -53])
+        last = [_f2b(q), _f2b(r)]
+        u = rng.random()
+        malformed = None
+        if u < 0.55:
+            cur = list(last)
+        elif u < 0.9:
+            cur = _norm_time(q, r + rng.choice([rng.uniform(0.0, chain), chain * 0.999, 2.0 ** -40]))
+        elif u < 0.95:
+            cur = _norm_time(q, r + chain * rng.choice([1.5, 1.0001, 7.0]))
+            malformed = "behind"
+        else:
+            cur = _norm_time(q, r - rng.choice([1e-9, 0.25, 3.0]))
+            malformed = "before"
+        speed = rng.choice([1.0, 1.0, -1.0, 2.0, rng.uniform(0.1, 3.0), 1e-14, 5e-14, 1.0e-13, 2e-13])
+        if seq:
+            phi = rng.uniform(0, 2 * math.pi)
+            vel = rng.choice([[speed, 0.0], [0.0, speed], [speed * math.cos(phi), speed * math.sin(phi)]])
+        else:
+            vel = [0.0] * dim
+            vel[rng.randrange(dim)] = speed
+            if rng.random() < 0.04 and dim > 1:
+                vel = [speed] * dim
+                malformed = "two directions"
+            elif rng.random() < 0.03:
+                vel = [-0.0 if rng.random() < 0.5 else 0.0] * dim
+                vel[rng.randrange(dim)] = speed        # negative zeros are zeros
+        per_root = rng.choice([2, 3])
+        kind = rng.choice(["single", "root", "leaf", "leaf", "root"])
+        same = rng.random() < 0.3
+
+        def pos():
+            return [_f2b(rng.uniform(0, L) if rng.random() < 0.9 else 0.0) for _ in range(dim)]
+
+        def earlier(t):
+            if rng.random() < 0.5:
+                return list(t)
+            tr = _b2f(t[1])
+            return [t[0], _f2b(tr * rng.random())]
+
+        def unit(ident, v, ts, w=1.0):
+            return {"id": ident, "pos": pos(), "vel": None if v is None else [_f2b(x) for x in v],
+                    "ts": ts, "w": _f2b(w), "children": []}
+
+        i = rng.randrange(5)
+        j = i if same else (i + 1 + rng.randrange(4)) % 5
+        if kind == "single":
+            old = unit([i], vel, cur)
+            new = dict(old, children=[]) if j == i else unit([j], None, None)
+        elif kind == "root":
+            w = 1.0 / per_root
+            old = unit([i], vel, cur)
+            old["children"] = [unit([i, a], vel, earlier(cur), w) for a in range(per_root)]
+            if j == i:
+                new = dict(old, children=[dict(ch) for ch in old["children"]])
+            else:
+                new = unit([j], None, None)
+                new["children"] = [unit([j, a], None, None, w) for a in range(per_root)]
+        else:
+            w = 1.0 / per_root
+            a = rng.randrange(per_root)
+            b = a if rng.random() < 0.3 else (a + 1) % per_root
+            old = unit([i], [x * w for x in vel], cur)
+            old["children"] = [unit([i, a], vel, earlier(cur), w)]
+            if j == i:
+                new = dict(old, children=[dict(old["children"][0]) if b == a else unit([i, b], None, None, w)])
+            else:
+                new = unit([j], None, None)
+                new["children"] = [unit([j, b], None, None, w)]
+        if rng.random() < 0.03:
+            # the unit that should become active already moves: the handler has to refuse
+            tgt = new["children"][0] if new["children"] else new
+            if tgt["vel"] is None:
+                tgt["vel"] = [_f2b(x) for x in vel]
+                tgt["ts"] = list(cur)
+                malformed = "target moves"
+        cases.append({"dim": dim, "L": _f2b(L), "chain": _f2b(chain), "delta_phi": _f2b(rng.choice([10.0, 45.0, 33.3, 90.0, 271.0])) if seq else None,
+                      "last": last, "levels": 1 if kind == "single" else 2, "per_root": per_root, "old": old, "new": new,
+                      "kind": kind + ("/seq" if seq else "/per") + ("/same" if j == i else "/other"),
+                      "malformed": malformed})
+    return cases
+
+
+def _flat_eb(branch, parent, acc):
+    k = len(acc)
+    acc.append((branch, parent))
+    for ch in branch.get("children", []):
+        _flat_eb(ch, k, acc)
+    return acc
+
+
+def _eb(u, parent, w=None):
+    zl = lambda l: C.coq_list(["%d%%Z" % x for x in l])
+    return "(mkEB %s %s %s %s %s %d%%Z)" % (
+        zl(u["id"]), zl(u["pos"]), "None" if u["vel"] is None else "(Some %s)" % zl(u["vel"]),
+        "None" if u["ts"] is None else "(Some (%d%%Z, %d%%Z))" % tuple(u["ts"]),
+        "None" if parent is None else "(Some %d%%nat)" % parent, u.get("w", _f2b(1.0)) if w is None else w)
+
+
+def eoc_oracle(c, o):
+    """C07 in its own terms on the real out-state (exact rationals): None or a message"""
+    from fractions import Fraction as Fr
+    if o.get("T") is None or o.get("out") is None:
+        return None
+    fr = lambda b: Fr(_b2f(b))
+    T = fr(o["T"][0]) + fr(o["T"][1])
+    last = fr(c["last"][0]) + fr(c["last"][1])
+    chain = fr(c["chain"])
+    if abs(T - (last + chain)) > max(Fr(1), chain) / 2 ** 49:
+        return "end of chain not at last committed event time + chain time (off by %.3e)" % float(T - last - chain)
+    if o["last_after"] != o["T"]:
+        return "the handler's last committed event time after the event is not the event time"
+    ids_old = [tuple(u["id"]) for u, _ in _flat_eb(c["old"], None, []) if not u["children"]]
+    new_leaves = [tuple(u["id"]) for u, _ in _flat_eb(c["new"], None, []) if not u["children"]]
+    v_old = [fr(x) for x in (c["old"]["children"][0] if c["old"]["children"] else c["old"])["vel"]]
+    sp_old = sum(x * x for x in v_old)
+    leaves_out = [u for u in o["out"] if len(u["id"]) == (1 if c["levels"] == 1 else 2)]
+    moving = [u for u in leaves_out if u["vel"] is not None]
+    if sp_old < Fr(1, 10 ** 25):
+        return None
+    if sorted(set(tuple(u["id"]) for u in moving)) != sorted(set(new_leaves)):
+        return "moving point masses after the event %r are not the point masses of the new active unit %r" % (
+            sorted(set(tuple(u["id"]) for u in moving)), sorted(set(new_leaves)))
+    for u in moving:
+        if u["vel"] != moving[0]["vel"]:
+            return "moving point masses do not share one velocity"
+        if u["ts"] != o["T"]:
+            return "a moving point mass is not stamped with the event time"
+    sp_new = sum(fr(x) ** 2 for x in moving[0]["vel"])
+    if c["delta_phi"] is None:
+        if sp_new != sp_old or sum(1 for x in moving[0]["vel"] if fr(x) != 0) != 1:
+            return "speed changed at the end of a chain (periodic direction)"
+        d_old = [k for k, x in enumerate(v_old) if x != 0][0]
+        d_new = [k for k, x in enumerate(moving[0]["vel"]) if fr(x) != 0][0]
+        if d_new != (d_old + 1) % c["dim"]:
+            return "direction of motion %d follows %d in %d dimensions" % (d_new, d_old, c["dim"])
+    elif abs(sp_new - sp_old) > sp_old / 2 ** 48:
+        return "speed changed at the end of a chain beyond rounding (sequential direction)"
+    for u in leaves_out:
+        if u["vel"] is None and u["ts"] is not None:
+            return "a point mass at rest keeps a time stamp"
+    # continuity: every unit of the old branch sits at its time-sliced position
+    L = fr(c["L"])
+    before = {}
+    for u, _ in _flat_eb(c["old"], None, []) + _flat_eb(c["new"], None, []):
+        before.setdefault(tuple(u["id"]), u)
+    for u in o["out"]:
+        b = before[tuple(u["id"])]
+        for d in range(c["dim"]):
+            y = fr(b["pos"][d])
+            if b["vel"] is not None:
+                t0 = fr(b["ts"][0]) + fr(b["ts"][1])
+                y += fr(b["vel"][d]) * (T - t0)
+                tol = (abs(fr(b["vel"][d])) * max(Fr(1), abs(T - t0)) + max(abs(y), L)) / 2 ** 49
+            else:
+                tol = 0
+            dist = (fr(u["pos"][d]) - y) % L
+            if min(dist, L - dist) > tol:
+                return "unit %r jumped at the end of a chain (off by %.3e)" % (u["id"], float(min(dist, L - dist)))
+    return None
+
+
+def handler_level(ctx, cases=None):
+    cases = cases if cases is not None else eoc_cases(ctx, ctx.n(1500, 12000))
+    chunks = [cases[i:i + 250] for i in range(0, len(cases), 250)]
+    outs = []
+    for o in C.run_driver_parallel(ctx, "c07_eoc", [{"cases": ch} for ch in chunks]):
+        outs += o["out"]
+    fails, terms, kinds, raised = [], [], {}, {"send_event_time": 0, "send_out_state": 0}
+    for c, o in zip(cases, outs):
+        kinds[c["kind"]] = kinds.get(c["kind"], 0) + 1
+        if "exc" in o:
+            fails.append((c, "driver could not set the case up: %s %s" % (o["exc"], o["msg"])))
+            continue
+        if o["T"] is None:
+            raised["send_event_time"] += 1
+        elif o["out"] is None:
+            raised["send_out_state"] += 1
+        if c["malformed"] is None and (o["T"] is None or o["out"] is None):
+            fails.append((c, "the handler raised on a well-formed end of chain: %s" % (o.get("exc_T") or o.get("exc_out"))))
+            continue
+        m = eoc_oracle(c, o)
+        if m:
+            fails.append((c, m))
+        old = C.coq_list([_eb(u, p) for u, p in _flat_eb(c["old"], None, [])])
+        new = C.coq_list([_eb(u, p) for u, p in _flat_eb(c["new"], None, [])])
+        if o.get("out") is not None:
+            # parents / weights are not compared: positional encoding only
+            ro = "(Some %s)" % C.coq_list([_eb(u, None, _f2b(1.0)) for u in o["out"]])
+        else:
+            ro = "None"
+        kind = "None" if c["delta_phi"] is None else "(Some (%d%%Z, %d%%Z))" % tuple(o["cs"])
+        la = o.get("last_after", [0, 0])
+        terms.append("mkEC %d%%Z %d%%nat %s %d%%Z (%d%%Z, %d%%Z) %s %s %s %s (%d%%Z, %d%%Z)" % (
+            c["L"], c["dim"], kind, c["chain"], c["last"][0], c["last"][1], old, new,
+            "None" if o["T"] is None else "(Some (%d%%Z, %d%%Z))" % tuple(o["T"]), ro, la[0], la[1]))
+    bad, err, neval = [], "", 0
+    if terms:
+        neval, bad, nf, nok, err = C.eval_cases(
+            ctx, "c07_eoc", "Require Import JF.Base.F64 JF.Model.EndOfChain JF.Model.EndOfChainCases.\n"
+            "From Coq Require Import ZArith.", terms, "check_eoccase", "eoccase", per_file=150)
+    if fails:
+        c, m = fails[0]
+        C.violation(ctx, "eoc-handler", {"kind": "c07-eoc", "case": c, "message": m, "n_failing": len(fails)},
+                    "C07 fails on the implementation (end-of-chain handler): " + m)
+    elif bad or err:
+        good = [c for c in cases]
+        C.violation(ctx, "eoc-correspondence",
+                    {"kind": "c07-eoc", "case": good[bad[0]] if bad else None,
+                     "message": "the real end-of-chain handler differs from Model/EndOfChain.v in %d cases; the "
+                                "correspondence JF.Model.EndOfChainCases.check_eoccase no longer checks. %s"
+                                % (len(bad), err[-300:])},
+                    "end-of-chain model and handler disagree", nofail=True)
+    ctx.notes.append("end-of-chain handler level: %d constructed cases %r; handler raised (malformed stream): %r; "
+                     "%d oracle failures, %d cases evaluated in Coq, %d bit-level mismatches with Model/EndOfChain.v"
+                     % (len(cases), kinds, raised, len(fails), neval, len(bad)))
+    if neval != len(terms) and not err:
+        C.violation(ctx, "eoc-correspondence", {"kind": "c07-eoc", "message": "only %d of %d end-of-chain cases were "
+                    "evaluated in Coq" % (neval, len(terms))}, "end-of-chain case files incomplete", nofail=True)
+
+
+def run(ctx, replay_jobs=None, eoc_override=None):
+    C.build_scratch(ctx, exts=("heap", "mic", "ipc"))
+    if replay_jobs is None:
+        handler_level(ctx, cases=eoc_override)
     hist.run_history_check(
         ctx, "C07", ("C07",), encoders(), TRUSTED, ASSUME,
         "Props/C07.v re-checked; every traced run replayed through Model/Kinematics.v in Coq (leg_ok: candidates in "
         "the future, pick is a minimum of the pending events, out-state contract, coverage of the moving chain, "
         "model state == real state); oracle: times never decrease, per-unit continuity within the rounding bound, "
         "inactive units do not move, one chain with conserved speed, positions in the box, identities/charges fixed",
-        replay_jobs=replay_jobs, extra_batches=() if replay_jobs else creator_batches(ctx))
+        replay_jobs=replay_jobs, extra_batches=() if replay_jobs else creator_batches(ctx), prebuilt=True)
 
 
 def replay(ctx, path):
+    import json
+    data = json.load(open(path))
+    if data.get("kind") == "c07-eoc":
+        # the failing end-of-chain case first, then the ordinary check (which writes the verdict and the evidence)
+        run(ctx, eoc_override=[data["case"]] if data.get("case") else None)
+        return
     run(ctx, replay_jobs=hist.replay_payloads(path))
